@@ -97,12 +97,13 @@ fn native_record_actions(it: &mut ResponseIterator<'_>, k: usize, acts: &[Act]) 
                     "[]".into()
                 };
                 out.push(format!(
-                    "{{\"a\":\"obs\",\"name\":{},\"type\":{},\"class\":{},\"ttl\":{},\"ip\":{},\"ok\":true}}",
+                    "{{\"a\":\"obs\",\"name\":{},\"type\":{},\"class\":{},\"ttl\":{},\"ip\":{},\"ip2len\":{},\"ok\":true}}",
                     jbytes(&it.name()),
                     ty,
                     it.rr_class(),
                     ju32(it.rr_ttl()),
-                    ip
+                    ip,
+                    if ty == 1 { 4 } else if ty == 28 { 16 } else { 0 }
                 ));
             }
             "set_ttl" => {
